@@ -17,6 +17,7 @@ func checkC05(r *Report, p *Program) {
 	r.NotDecided = "containment, removal, preservation, order preservation, idempotence and no-panic over all JSON triples."
 	r05_1(r, p)
 	vacuousAssertGuards(r, p, "R05.2")
+	r05_7(r, p)
 	// what ApplyUpdate's helpers touch are private copies: the objects handed in (observed child from the cache, the merge result about to be sent) are not edited behind the caller's back — shared with C17
 	r17_1(r, p)
 	r05_3(r, p)
@@ -566,5 +567,126 @@ func r05_5(r *Report, p *Program) {
 			}
 			r.Check(rule, FK(f), p.Pos(f.Pos()), ok, "every field path is visited", why)
 		}
+	}
+}
+
+// detectsDuplicates: fn scans lists with a local "seen" set — a map made in fn is looked up with a key, a hit
+// leads straight to a return of false, and the key is stored afterwards.
+func detectsDuplicates(fn *ssa.Function) bool {
+	if fn == nil || len(fn.Blocks) == 0 {
+		return false
+	}
+	for _, b := range fn.Blocks {
+		for _, in := range b.Instrs {
+			lk, isL := in.(*ssa.Lookup)
+			if !isL {
+				continue
+			}
+			if _, local := engine.ResolveLocal(lk.X).(*ssa.MakeMap); !local {
+				continue
+			}
+			stored := false
+			if refs := engine.ResolveLocal(lk.X).Referrers(); refs != nil {
+				for _, u := range *refs {
+					if mu, isMU := u.(*ssa.MapUpdate); isMU && engine.SameValue(mu.Key, lk.Index) {
+						stored = true
+					}
+				}
+			}
+			if !stored {
+				continue
+			}
+			// a hit (lookup result true) runs straight into 'return false'
+			for _, bb := range fn.Blocks {
+				for i := range bb.Succs {
+					l, has := engine.EdgeLit(bb, i)
+					if !has || !l.Pos {
+						continue
+					}
+					if !(l.Cond == ssa.Value(lk) || engine.SameValue(l.Cond, lk)) {
+						if ex, isEx := l.Cond.(*ssa.Extract); !isEx || ex.Tuple != ssa.Value(lk) {
+							continue
+						}
+					}
+					w := engine.Query{Fn: fn, From: []engine.Point{{B: bb.Succs[i]}}, CutEdge: func(*ssa.BasicBlock, int, *Lit) bool { return false },
+						Target: func(x ssa.Instruction) bool {
+							rt, isR := x.(*ssa.Return)
+							if !isR || len(rt.Results) == 0 {
+								return false
+							}
+							c, isC := engine.RetVal(rt, 0).(*ssa.Const)
+							return isC && c.Value != nil && (c.Value.String() == "false" || c.Value.String() == `""`)
+						}}.Find()
+					if w != nil {
+						return true
+					}
+				}
+			}
+		}
+	}
+	return false
+}
+
+// r05_7: a list is folded into a map by a guessed merge key only when that key identifies the items.
+func r05_7(r *Report, p *Program) {
+	const rule = "R05.7"
+	r.Rule(rule, "detectListMapKey hands out a merge key only after a duplicate scan of every list for that key (makeListMap overwrites silently: with a non-unique key a desired entry is dropped)")
+	r.Floor(rule, 1)
+	f := fn(r, p, rule, "dynamic/apply.detectListMapKey")
+	if f == nil {
+		return
+	}
+	ok, why := true, ""
+	n := 0
+	for _, b := range f.Blocks {
+		rt, isR := b.Instrs[len(b.Instrs)-1].(*ssa.Return)
+		if !isR || len(rt.Results) != 1 {
+			continue
+		}
+		if c, isC := engine.RetVal(rt, 0).(*ssa.Const); isC && c.Value != nil && c.Value.String() == `""` {
+			continue
+		}
+		n++
+		key := engine.RetVal(rt, 0)
+		inline := detectsDuplicates(f)
+		w := unguarded(f, nil, rt, func(l Lit) bool {
+			c, isC := l.Cond.(*ssa.Call)
+			if !isC || !l.Pos {
+				return false
+			}
+			g := engine.StaticFn(c.Common())
+			if g == nil || !detectsDuplicates(g) {
+				return false
+			}
+			hasKey, hasLists := false, false
+			for _, a := range c.Common().Args {
+				if engine.SameValue(a, key) {
+					hasKey = true
+				}
+				if engine.SameValue(a, f.Params[0]) || strings.HasPrefix(E(a), "p0") {
+					hasLists = true
+				}
+			}
+			return hasKey && hasLists
+		})
+		if w != nil && !inline {
+			ok, why = false, "a merge key is handed out ("+E(key)+") without checking that its values are unique within each list: makeListMap keeps one item per key value, so of two desired entries with the same value (e.g. port 53 for TCP and UDP) one is silently dropped"
+		}
+	}
+	if n == 0 {
+		ok, why = false, "detectListMapKey never returns a key"
+	}
+	r.Check(rule, FK(f), p.Pos(f.Pos()), ok, "key handed out only after a duplicate scan", why)
+	// and the fold itself overwrites: confirm the premise so that the rule is not vacuous
+	if m := fn(r, p, rule, "dynamic/apply.makeListMap"); m != nil {
+		over := false
+		for _, b := range m.Blocks {
+			for _, in := range b.Instrs {
+				if _, isMU := in.(*ssa.MapUpdate); isMU {
+					over = true
+				}
+			}
+		}
+		r.Check(rule, FK(m)+"[premise]", p.Pos(m.Pos()), over, "makeListMap stores by key (so uniqueness is what keeps entries apart)", "makeListMap no longer stores items by merge key: the premise of R05.7 changed, re-read")
 	}
 }
